@@ -8,7 +8,9 @@ args = sys.argv[2:]
 if args and args[0].startswith("--round="):
     rnd = args[0].split("=")[1]; args = args[1:]
 checks = args or [pid]
-ROOT = "/verif"
+ROOT = os.environ.get("SEED_ROOT", "/verif")
+REPO = os.environ.get("SEED_REPO", "/repo")
+os.environ["VERIF_REPO"] = REPO
 for k in (1, 2, 3):
     src = "/tmp/s/%s%s/out/%d" % (pid, rnd, k)
     if not os.path.exists(os.path.join(src, "meta.json")):
@@ -21,24 +23,24 @@ for k in (1, 2, 3):
         prev = json.load(open(os.path.join(dst, "meta.json"))).get("checks_run", {})
     for f in ("patch.diff", "demo_test.go.txt", "meta.json"):
         shutil.copy(os.path.join(src, f), os.path.join(dst, f))
-    if subprocess.run("git -C /repo diff --quiet", shell=True).returncode:
+    if subprocess.run("git -C %s diff --quiet" % REPO, shell=True).returncode:
         print("repo dirty"); sys.exit(2)
-    r = subprocess.run(["git", "-C", "/repo", "apply", "--3way", os.path.join(dst, "patch.diff")], stdout=subprocess.PIPE, stderr=subprocess.STDOUT, text=True)
+    r = subprocess.run(["git", "-C", REPO, "apply", "--3way", os.path.join(dst, "patch.diff")], stdout=subprocess.PIPE, stderr=subprocess.STDOUT, text=True)
     if r.returncode:
-        print(pid, k, "patch does not apply:", r.stdout[-300:]); subprocess.run("git -C /repo checkout -- . ; git -C /repo reset -q", shell=True); continue
-    subprocess.run("git -C /repo reset -q", shell=True)
-    files = subprocess.run("git -C /repo diff --stat | head -8", shell=True, stdout=subprocess.PIPE, text=True).stdout
+        print(pid, k, "patch does not apply:", r.stdout[-300:]); subprocess.run("git -C %s checkout -- . ; git -C %s reset -q" % (REPO, REPO), shell=True); continue
+    subprocess.run("git -C %s reset -q" % REPO, shell=True)
+    files = subprocess.run("git -C %s diff --stat | head -8" % REPO, shell=True, stdout=subprocess.PIPE, text=True).stdout
     results = {}
     for cid in checks:
         try:
             p = subprocess.run(["timeout", "-k", "5", "1500", "./check", cid, "--tier", "quick"], cwd=ROOT, stdout=subprocess.PIPE, stderr=subprocess.STDOUT, text=True)
         except Exception as ex:
             print("check failed to run:", ex); p = subprocess.CompletedProcess([], 124, stdout="")
-        subprocess.run("pkill -f '^/verif/build/[i]mplrun'; sleep 0.3", shell=True)
+        if ROOT == "/verif": subprocess.run("pkill -f '^/verif/build/[i]mplrun'; sleep 0.3", shell=True)
         viol = [l for l in p.stdout.split("\n") if l.startswith("VIOLATION")]
         descr = [l[2:200] for l in p.stdout.split("\n") if l.startswith("# ")]
         results[cid] = {"exit": p.returncode, "violations": [re.sub(r"replay=\S*/", "replay=", v) for v in viol], "what": descr[:4]}
-    subprocess.run("git -C /repo checkout -- .", shell=True)
+    subprocess.run("git -C %s checkout -- ." % REPO, shell=True)
     subprocess.run("git checkout -- evidence", shell=True, cwd=ROOT)
     meta = json.load(open(os.path.join(dst, "meta.json")))
     results = dict(prev, **results)
